@@ -1,5 +1,5 @@
 """Per-property driver: run the obligations, classify failures, replay, write evidence."""
-import importlib, time, json, os, sys
+import importlib, time, json, os, sys, re
 from common import *
 import kanirun
 
@@ -44,12 +44,19 @@ def main(prop, tier, replay, only):
             if qr.status == "INCONCLUSIVE":
                 inconclusive.append("%s: %s" % (qr.q.name, qr.reason))
                 continue
+            replayed = {}
             for fnd in qr.findings:
                 k = match_known(prop, qr.q.name, fnd.site, known)
                 if k:
                     known_hits.append((k, fnd))
                     continue
-                ok, rpath, note = mirsym_run.replay(qr, fnd, prop)
+                # one native replay and one report per obligation class (the per-path suffix "[path N: ...]" is dropped)
+                cls = re.sub(r" \[path \d+[^\]]*\]$", "", fnd.site)
+                if cls in replayed:
+                    continue
+                fnd.site = cls
+                ok, rpath, note = replayed.setdefault("__res__", mirsym_run.replay(qr, fnd, prop))
+                replayed[cls] = True
                 fnd.replay, fnd.reproduced = rpath, ok
                 fnd.detail["replay_note"] = note
                 if ok:
